@@ -70,7 +70,39 @@ Theorem C18_pvs_disks_correct :
 Proof. exact pvs_disks_correct. Qed.
 Print Assumptions C18_pvs_disks_correct.
 
+(* ---- OVF: arbitrary element trees; any reference/disk/item graph in scope ---- *)
+Theorem C18_ovf_disks_correct :
+  forall root, wf_ovf root = true -> ovf_disks root = Ok (map Some (spec_ovf_disks root)).
+Proof. exact ovf_disks_correct. Qed.
+Print Assumptions C18_ovf_disks_correct.
+
+(* the ElementPath evaluation of the generated disk-drive path selects exactly the ResourceType-17
+   items of VirtualSystem/VirtualHardwareSection, in every tree *)
+Theorem C18_ovf_drive_path : forall root, eval_path ovf_drive_xpath root = spec_drives root.
+Proof. exact drive_path. Qed.
+Print Assumptions C18_ovf_drive_path.
+
 (* ---- non-vacuity and the need for well-formedness ---- *)
+Definition E (t : str) (a : list (str * str)) (tx : option str) (k : list elem) : elem := Elem t a tx None k.
+(* one file, a disk on it, an EMPTY disk (no fileRef), two disk drives and a CD drive on the same file *)
+Definition ex_ovf : elem :=
+  E (ovf_n [69]) [] None
+    [ E (ovf_n n_References) [] None [E (ovf_n n_File) [(ovf_n n_id, [102;49]); (ovf_n n_href, [97])] None []];
+      E (ovf_n n_DiskSection) [] None
+        [ E (ovf_n n_Disk) [(ovf_n n_diskId, [100;49]); (ovf_n n_fileRef, [102;49])] None [];
+          E (ovf_n n_Disk) [(ovf_n n_diskId, [100;50])] None [] ];
+      E (ovf_n n_VirtualSystem) [] None
+        [ E (ovf_n n_VirtualHardwareSection) [] None
+            [ E (ovf_n n_Item) [] None [E (rasd_n n_ResourceType) [] (Some s_17) [];
+                                        E (rasd_n n_HostResource) [] (Some (s_ovf_colon ++ s_slash_disk ++ [100;49])) []];
+              E (ovf_n n_Item) [] None [E (rasd_n n_HostResource) [] (Some (s_slash_disk ++ [100;50])) [];
+                                        E (rasd_n n_ResourceType) [] (Some s_17) []];
+              E (ovf_n n_Item) [] None [E (rasd_n n_ResourceType) [] (Some [49;53]) [];
+                                        E (rasd_n n_HostResource) [] (Some (s_ovf_colon ++ s_slash_file ++ [102;49])) []] ] ] ].
+Example C18_ovf_nonvacuous :
+  wf_ovf ex_ovf = true /\ spec_ovf_disks ex_ovf = [[97]] /\ ovf_disks ex_ovf = Ok [Some [97]].
+Proof. repeat split; vm_compute; reflexivity. Qed.
+
 Definition s (l : list Z) : str := l.
 (* scsi0:0.filename = "a"; scsi0:0.devicetype = "scsi-harddisk"; ide1:0.filename = "b";
    ide1:0.devicetype = "cdrom-image"; scsi0.present; ideal = "1" (unrelated, dot-less) *)
